@@ -339,3 +339,22 @@ def walrus_and_star(a, b):
     if (t := a + b) > 5:
         return f(*pair), t, (7, *pair), [*pair, a] == [a, b, a], a in (0, *pair)
     return f(*pair, z=t), {k: k + a for k in (1, 2, 3) if k != b}.get(2, -1)
+
+
+def reversed_and_unpack(a, b):
+    lo, hi = (min(x, 9) for x in (a, b))
+    out = []
+    for x in reversed([a, b, lo]):
+        out.append(x + hi)
+    p, q, r = (x * 2 for x in (a, b, lo))
+    back = list(reversed((a, b)))
+    return out[0], out[1], out[2], len(out), back[0], back[1], p, q, r
+
+
+def genexp_consumers(a, b):
+    t = tuple(x + 1 for x in (a, b))
+    m = max(x * 2 for x in (a, b))
+    bs = bytes(x for x in (a, b))
+    e = list(enumerate(x + 1 for x in (a, b)))[1][1]
+    z = list(zip((a, b), (x for x in (b, a))))[0][1]
+    return t, m, bs, e, z
